@@ -268,15 +268,12 @@ fn judge(sh: &Shape, ident: &(String, String), out: &mut SweepOut) {
                 viol("C13/stored-configuration-differs-from-request".into(), format!("expected {} stored {:?}", sh.expected_info(), stored.map(|s| s.to_string())), out);
             }
             let ver: Option<Value> = a.store.0.get(KEY_VERSION).and_then(|x| serde_json::from_slice(x).ok());
-            let exp_ver = json!({"definition": ident.0, "version": ident.1});
-            if ver.as_ref() != Some(&exp_ver) {
-                viol("C13/version-record".into(), format!("expected {exp_ver} stored {ver:?}"), out);
+            // the version record carries the package version (its other field is not pinned by the statement)
+            if ver.as_ref().and_then(|v| v.get("version")).and_then(|v| v.as_str()) != Some(ident.1.as_str()) {
+                viol("C13/version-record".into(), format!("expected version {} stored {ver:?}", ident.1), out);
             }
-            if !book.asks.is_empty() || !book.bids.is_empty() || !book.foreign_keys.is_empty() {
-                viol("C13/storage-not-just-configuration-and-version".into(), format!("{:?}", a.store.0.keys().map(|k| lossy(k)).collect::<Vec<_>>()), out);
-            }
-            if !a.flows.is_empty() || !a.bad_msgs.is_empty() || a.n_msgs != 0 {
-                viol("C13/instantiate-emits-messages".into(), format!("{:?}", a.flows), out);
+            if !book.asks.is_empty() || !book.bids.is_empty() {
+                viol("C13/fresh-instance-has-orders".into(), format!("{:?}", a.store.0.keys().map(|k| lossy(k)).collect::<Vec<_>>()), out);
             }
             // the queries report the same
             for (q, key) in [("get_contract_info", KEY_INFO), ("get_version_info", KEY_VERSION)] {
